@@ -8,6 +8,18 @@ CLAIMED = {
          "custom go/ssa path analysis of every per-packet closure (forward-exactly-once, read/fail-clean, parameter immutability, read-buffer slicing) + structural loop rules on Chain/Registry",
          "Decides, for all paths of all per-packet closures and Chain methods, the structural clauses A0-A4,K1,K2 that are necessary for transparency; it does not decide byte equality at the downstream writer. Level 'other': a static necessary-condition check, not the behaviour itself.",
          "trusts go/types+go/ssa, CHA/VTA callee resolution, and the frozen classification of pion/rtp Header methods; concurrency between callers and option-dependent construction are not covered"),
+ "C02": ("DESIGN.md §3 F,A4,D3; §4 C02",
+         "dominating-guard analysis (path-class sensitive) for packet-derived indices, pooled-buffer copies, two-sided slices and parse results; channel-operation rule for wedging",
+         "Decides necessary structural clauses F1-F4,A4,D3 for all paths of all library functions: every index/copy/slice whose bound comes from a received packet is guarded, parse errors are honoured, no API path can block forever on an internal channel. It does not decide crash-freedom (arithmetic invariants, nil dereferences, third-party code).",
+         "guards are recognised liberally (any comparison of the right operands); only constant guards of pooled-buffer copies are checked arithmetically; trusts pion/rtp's guarantee that a parsed header is no longer than its input"),
+ "C10": ("DESIGN.md §3 C, D4; App. A",
+         "lockset analysis (must-hold locksets, entry locksets from call sites) against a frozen guarded-field table; call-graph confinement; atomic-only fields; lock-order graph; wait-under-lock",
+         "Decides a lock discipline (C1-C5, D4) for every access to ≈100 table fields on every path, independent of schedule: an unguarded or read-locked write is a race on some interleaving. It does not decide race freedom of memory outside the table or lost updates.",
+         "guard and confinement tables are hand-confirmed and every row must resolve; locks are (type, field) abstractions; exported methods are assumed callable with no lock held"),
+ "C11": ("DESIGN.md §3 D",
+         "structural lifecycle rules over go statements, goroutine loops, API-path channel operations, lifecycle channels and per-SSRC containers (dominators, natural loops, call-graph reachability)",
+         "Decides D1-D6 for all 14 go statements, all goroutine loops, all API-path channel operations and all per-stream containers: goroutines are accounted and stoppable, callers cannot be stranded, Unbind mirrors Bind. Necessary conditions of the lifecycle property; timing is not decided. Seven genuine violations are recorded as known findings (unaccounted goroutines, missing unbind).",
+         "channel identity by field/make-site; Close methods are the only shutdown sources; user-supplied writers are assumed to return"),
 }
 
 NA = {
